@@ -2016,6 +2016,38 @@ Proof.
         -- right. exists ax. split; [|assumption]. unfold elo_result. now rewrite F1, F4.
 Qed.
 
+Lemma loop_complete fuel : forall st, Core st -> (Rl st <> [] -> Ends st) -> SPext st -> length (Rl st) <= fuel ->
+  exists st', elo_loop fuel prefs st = Ok st' /\ st_is_SP st' = true.
+Proof.
+  induction fuel as [|f IH]; intros st HC HE HS Hlen.
+  - destruct (c_run st HC) as (R1 & R2 & R3).
+    assert (HR : Rl st = []) by (apply length_zero_iff_nil; lia).
+    exists st. split; [|exact R1].
+    simpl. rewrite R1. simpl. rewrite (c_sp st HC).
+    destruct (py_first_prefs (placed st)) as (v0 & Hv0 & ->). cbn [rbind].
+    rewrite (vote_filter_length _ v0 Hv0). fold (Rl st). rewrite HR. reflexivity.
+  - destruct (c_run st HC) as (R1 & R2 & R3).
+    cbn [elo_loop]. rewrite R1. cbn [negb]. rewrite (c_sp st HC).
+    destruct (py_first_prefs (placed st)) as (v0 & Hv0 & ->). cbn [rbind].
+    rewrite (vote_filter_length _ v0 Hv0). fold (Rl st). rewrite R2. cbn [negb]. rewrite andb_true_r.
+    destruct (Rl st) as [|r0 rl0] eqn:ER.
+    + exists st. split; [reflexivity|exact R1].
+    + cbn [length Nat.leb].
+      assert (HR : Rl st <> []) by (rewrite ER; discriminate).
+      destruct (round_ok st HC (HE ltac:(discriminate)) HR) as (st' & Eround & Hstep & Hcompl).
+      destruct (Hcompl HS) as [Hsp' Hext'].
+      rewrite Eround. cbn [rbind].
+      destruct Hstep as [Hfalse|[(HC' & HE' & Hlt)|Hfin]].
+      * congruence.
+      * apply IH; auto.
+        -- apply Hext'. apply (c_run st' HC').
+        -- rewrite ER in Hlt. simpl in Hlt, Hlen. lia.
+      * destruct Hfin as (F1 & F2 & F3 & ax & F4 & F5).
+        exists st'. split; [|exact F1].
+        destruct (st_prefs_SP st') as [|p0 ps] eqn:Eps; [congruence|].
+        destruct f; simpl; rewrite F1, Eps, F2; simpl; rewrite andb_false_r; reflexivity.
+Qed.
+
 Lemma core_init : Core (elo_init prefs) /\ Ends (elo_init prefs) /\ Rl (elo_init prefs) = alts.
 Proof.
   assert (HRl : Rl (elo_init prefs) = alts).
@@ -2042,6 +2074,23 @@ Proof.
   destruct Hfin as [Hf|(ax & Er & Hs)].
   - exists false, []. split; [unfold elo_result; now rewrite Hf|discriminate].
   - exists true, ax. split; [now rewrite Er|auto].
+Qed.
+Theorem elo_complete_main : SP alts prefs -> exists ax, elo alts prefs = Ok (true, ax).
+Proof.
+  intros (axis & Hperm & Hsp).
+  destruct core_init as (HC & HE & HR).
+  assert (HS : SPext (elo_init prefs)).
+  { unfold SPext. rewrite HR. exists axis. split; [now apply Permutation_sym|].
+    intros v Hv. unfold OL. simpl. rewrite app_nil_r. apply vf_valley. apply sp_axis_weak_valley.
+    apply axis_test_correct_gen.
+    - intros a. rewrite concat_strictify. split; intros Ha.
+      + apply (vote_in v a Hv). eapply Permutation_in; [apply Permutation_sym; exact Hperm|exact Ha].
+      + eapply Permutation_in; [exact Hperm|]. now apply (vote_in v a Hv).
+    - eapply Permutation_NoDup; eauto.
+    - intros k. rewrite concat_firstn_strictify. now apply Hsp. }
+  destruct (loop_complete (length alts) (elo_init prefs) HC (fun _ => HE) HS) as (st' & E & Hsp').
+  { rewrite HR. lia. }
+  unfold elo, elo_run. rewrite E. cbn [rmap]. unfold elo_result. rewrite Hsp'. eauto.
 Qed.
 End Main.
 
@@ -2077,4 +2126,34 @@ Theorem elo_sound_spec alts prefs ax : wf_strict_profile alts prefs ->
 Proof.
   intros Hwf E. pose proof (elo_sound alts prefs ax Hwf E) as H. destruct Hwf as (H1 & H2 & _).
   now apply sp_check_axis_correct in H.
+Qed.
+
+(* the Escoffier-Lang-Ozturk correctness theorem for the mirror: a single-peaked profile is accepted *)
+Theorem elo_complete alts prefs : wf_strict_profile alts prefs ->
+  SP alts prefs -> exists ax, elo alts prefs = Ok (true, ax).
+Proof.
+  intros (H1 & H2 & H3). rewrite Forall_forall in H2. now apply elo_complete_main.
+Qed.
+
+(* verdict exact, witness valid: the C03 statement for the mirrored algorithm *)
+Theorem elo_correct alts prefs : wf_strict_profile alts prefs ->
+  exists verdict ax, elo alts prefs = Ok (verdict, ax) /\
+    (verdict = true <-> SP alts prefs) /\
+    (verdict = true -> (NoDup ax /\ forall a, In a ax <-> In a alts) /\ SP_axis prefs ax).
+Proof.
+  intros Hwf. destruct (elo_no_error alts prefs Hwf) as (b & ax & E). exists b, ax. split; [exact E|].
+  split; [split|].
+  - intros ->. destruct (elo_sound_spec alts prefs ax Hwf E) as [Hax Hsp]. exists ax. split; [|exact Hsp].
+    destruct Hwf as (H1 & _ & _). now apply perm_iff_exactly_once.
+  - intros HSP. destruct (elo_complete alts prefs Hwf HSP) as (ax' & E'). rewrite E in E'. now injection E' as -> _.
+  - intros ->. now apply elo_sound_spec.
+Qed.
+
+(* hence the mirror agrees with the verified reference decider *)
+Theorem elo_agrees_reference alts prefs : wf_strict_profile alts prefs ->
+  exists ax, elo alts prefs = Ok (sp_decide alts prefs, ax).
+Proof.
+  intros Hwf. destruct (elo_correct alts prefs Hwf) as (b & ax & E & Hiff & _). exists ax. rewrite E.
+  destruct Hwf as (H1 & H2 & _). f_equal. f_equal. apply eq_true_iff_eq.
+  rewrite Hiff. symmetry. now apply sp_decide_correct.
 Qed.
